@@ -127,9 +127,20 @@ pub fn vx_eprintln(s: &str) { }
 pub fn vx_eprint_err(e: &VxParseErr) { }
 
 // ---- run_exp_test_br: the branch of an if / else-if / while is entered iff the LAST pipeline of its test line succeeded (or it is the else branch) ----
-pub ghost struct TestLog { pub pass: bool }
+// pass: some test of the branch passed (or it is the else branch); outs: what the commands of its tests wrote to stdout / stderr, in order
+pub ghost struct TestLog { pub pass: bool, pub outs: Seq<(Seq<char>, Seq<char>)> }
 #[verifier::external_body]
-pub proof fn note_test(tracked tl: &mut TestLog, ok: bool) ensures final(tl).pass == (old(tl).pass || ok) { unimplemented!() }
+pub proof fn note_test(tracked tl: &mut TestLog, ok: bool) ensures final(tl).pass == (old(tl).pass || ok), final(tl).outs == old(tl).outs { unimplemented!() }
+pub open spec fn outs_of(c: Seq<CommandResult>) -> Seq<(Seq<char>, Seq<char>)> { c.map_values(|x: CommandResult| (x.stdout@, x.stderr@)) }
+#[verifier::external_body]
+pub proof fn note_outs(tracked tl: &mut TestLog, c: Seq<CommandResult>) ensures final(tl).pass == old(tl).pass, final(tl).outs == old(tl).outs + outs_of(c) { unimplemented!() }
+// the results of the tests come first in the result list of a branch, with what they wrote, and with status 0 (the status of a test picks the branch,
+// it is not a failure of the script: `set -e` and the status of the construct do not see it)
+pub open spec fn tests_first(c: Seq<CommandResult>, tl: TestLog) -> bool {
+    tl.outs.len() <= c.len() && forall|k: int| 0 <= k < tl.outs.len() ==> (#[trigger] c[k]).status == 0 && (c[k].stdout@, c[k].stderr@) == tl.outs[k]
+}
+#[verifier::external_body]
+pub fn vx_clone_cr(c: &CommandResult) -> (r: CommandResult) ensures r == *c { unimplemented!() }
 // the TEST child of an IF_HEAD / IF_ELSEIF_HEAD / WHILE_HEAD node (first child by the grammar: assumed)
 #[verifier::external_body]
 pub fn vx_head_test(head: VxPair) -> (r: VxPair) { unimplemented!() }
@@ -223,13 +234,19 @@ test_br = Fn(S, 'run_exp_test_br', rename='run_exp_test_br_real', ret='r',
     ],
     add_params='Tracked(tl): Tracked<&mut TestLog>',
     ghost_args={'run_exp': 'Tracked(&mut lg2)'},
-    requires=[('C05.pre.test_br.args', 'args@.len() >= 1'), ('C03+C15.pre.test_br.fresh', '!old(tl).pass')],
+    requires=[('C05.pre.test_br.args', 'args@.len() >= 1'), ('C03+C15.pre.test_br.fresh', '!old(tl).pass && old(tl).outs.len() == 0')],
     let_types={'cr_list': 'Vec<CommandResult>'},
-    loop_kinds={0: 'value', (0, 'clone'): 'vx_clone_pair(&{})'},
-    ensures=[('C03+C15.test_br.a_branch_is_taken_iff_the_last_pipeline_of_a_test_of_it_succeeded_or_it_is_the_else_branch', 'r.1 == final(tl).pass')],
-    loops={0: Loop(invariant=[('C03+C15.inv.test_br.flag', 'test_pass == tl.pass && args@.len() >= 1')])},
-    hints={'after-call:run_command_line': 'note_test(tl, _cr_list@.len() > 0 && _cr_list@.last().status == 0);',
+    loop_kinds={0: 'value', (0, 'clone'): 'vx_clone_pair(&{})', 1: 'value', (1, 'clone'): 'vx_clone_cr(&{})'},
+    ensures=[('C03+C15.test_br.a_branch_is_taken_iff_the_last_pipeline_of_a_test_of_it_succeeded_or_it_is_the_else_branch', 'r.1 == final(tl).pass'),
+             ('C11+C15.test_br.what_the_tests_wrote_is_in_the_result_list_and_their_status_is_not_a_failure', 'tests_first(r.0@, *final(tl))')],
+    loops={0: Loop(invariant=[('C03+C15.inv.test_br.flag', 'test_pass == tl.pass && args@.len() >= 1'),
+                              ('C11+C15.inv.test_br.tests_first', 'tests_first(cr_list@, *tl) && cr_list@.len() == tl.outs.len()')]),
+           1: Loop(invariant=[('C11+C15.inv.test_br.appending', 'cr_list@.len() == g_n + __i1 && tl.outs.len() == g_n + __v1@.len() && tl.outs.subrange(g_n as int, tl.outs.len() as int) == outs_of(__v1@) '
+                               '&& test_pass == tl.pass && args@.len() >= 1 '
+                               '&& forall|k: int| 0 <= k < cr_list@.len() ==> (#[trigger] cr_list@[k]).status == 0 && (cr_list@[k].stdout@, cr_list@[k].stderr@) == tl.outs[k]')])},
+    hints={'after-call:run_command_line': 'note_test(tl, _cr_list@.len() > 0 && _cr_list@.last().status == 0); ;;; RAW: let ghost g_n = cr_list@.len(); proof { note_outs(tl, _cr_list@); }',
            'before-text-all:test_pass = true;': 'note_test(tl, true);',
+           'loop-1-body-entry': 'assert(tl.outs.subrange(g_n as int, tl.outs.len() as int)[__i1 as int] == outs_of(__v1@)[__i1 as int]); assert(tl.outs[g_n + __i1] == (__v1@[__i1 as int].stdout@, __v1@[__i1 as int].stderr@));',
            'before-call:run_exp': 'RAW: let tracked mut lg2 = new_log();'},
 )
 
